@@ -12,7 +12,7 @@ def _key(c, r):
 
 
 def check(run):
-    cases, res = loadfam.gen_cases(run, "IcuCases", "MC_Icu_%s.cfg" % run.tier, timeout=3600)
+    cases, res = loadfam.gen_cases(run, "IcuCases", "MC_Icu_%s.cfg" % run.tier, timeout=3600, workers=1)
     if len(cases) < 50:
         raise vp.ToolError("IcuCases produced too few cases")
     run.samples = [cases[3]["abs"], cases[-1]["abs"]]
